@@ -154,42 +154,36 @@ theorem setInThread_safe (env : Env) (tid : Nat) (v : Str) (t : DbgState) {is : 
   simp only [wp_bind, wp_modS, wp_pure]
   exact And.intro (Inv0.put_istate hi rfl (tid := tid) (is := { is with hasVs := true, locals := v :: is.locals }) (And.intro hg.1 rfl) rfl) rfl
 
+theorem injectSecond_safe (env : Env) (tid : Nat) (v : Str) (hi : Inv0 s) (hl : s.lock = 0) :
+    wp (injectSecond env tid v) Post s := by
+  simp only [injectSecond, wp_locked, wp_bind, wp_getS, hl, true_and]
+  cases h2 : s.istates.lookup tid with
+  | none => leaf hi
+  | some is =>
+    have hg : IGood is := hi.2 _ (mem_of_lookup h2)
+    simp only
+    rw [wp_ite]
+    exact ⟨fun _ => by leaf hi, fun _ => setInThread_safe env tid v _ hi hg⟩
+
 theorem injectValue_safe (env : Env) (tid : Nat) (v e : Str) (hi : Inv0 s) (hl : s.lock = 0) :
     wp (injectValue repaired env tid v e) Post s := by
   simp only [injectValue, wp_bind, wp_getS]
   rw [wp_ite]
   refine ⟨fun _ => And.intro hi hl, fun _ => ?_⟩
   simp only [repaired, ↓reduceIte, wp_bind, wp_locked, wp_getS, hl, true_and]
-  -- the second half: evaluation outside the lock, then the write-locked update
   have second : ∀ t : DbgState, Inv0 t → t.lock = 0 → ∀ b : Bool, wp (if (!b) = true then (pure true : M Bool) else do
         let ok ← evalExpr (env.eval e)
         if (!ok) = true then pure true
-        else locked do
-          let s ← getS
-          match s.istates.lookup tid with
-          | none => pure true
-          | some is => if is.running = true then pure true else setInThread env tid v s is) Post t := by
+        else injectSecond env tid v) Post t := by
     intro t hi hl b
     rw [wp_ite]
     refine ⟨fun _ => And.intro hi hl, fun _ => ?_⟩
     simp only [wp_bind, wp_evalExpr]
     have third : ∀ ok : Bool, wp (if (!ok) = true then (pure true : M Bool)
-        else locked do
-          let s ← getS
-          match s.istates.lookup tid with
-          | none => pure true
-          | some is => if is.running = true then pure true else setInThread env tid v s is) Post t := by
+        else injectSecond env tid v) Post t := by
       intro ok
       rw [wp_ite]
-      refine ⟨fun _ => And.intro hi hl, fun _ => ?_⟩
-      simp only [wp_locked, wp_bind, wp_getS, hl, true_and]
-      cases h2 : t.istates.lookup tid with
-      | none => leaf hi
-      | some is =>
-        have hg : IGood is := hi.2 _ (mem_of_lookup h2)
-        simp only
-        rw [wp_ite]
-        exact ⟨fun _ => by leaf hi, fun _ => setInThread_safe env tid v _ hi hg⟩
+      exact ⟨fun _ => And.intro hi hl, fun _ => injectSecond_safe env tid v hi hl⟩
     cases env.eval e with
     | ok => exact third true
     | error => exact third false
